@@ -47,14 +47,18 @@ func main() {
 		res.Extra["forcecloserace_trials"] = t2
 		res.Extra["forcecloserace_double_finalisations"] = h2
 		fmt.Printf("forcecloserace: %d trials, %d double finalisations\n", t2, h2)
+		t3, h3 := closeDeadlockExperiment(30 * time.Second)
+		res.Extra["closedeadlock_trials"] = t3
+		res.Extra["closedeadlock_deadlocks"] = h3
+		fmt.Printf("closedeadlock: %d trials, %d deadlocks\n", t3, h3)
 		return
 	}
 
-	nK, nBigK, nP, nStress := 320, 2, 30000, 40
+	nK, nBigK, nP, nStress := 256, 2, 24000, 40
 	if a.Thorough() {
 		nK, nBigK, nP, nStress = 1600, 6, 1500000, 2000
 	}
-	seqBudget, stressBudget := 40*time.Second, 28*time.Second
+	seqBudget, stressBudget := 25*time.Second, 20*time.Second
 	if a.Thorough() {
 		seqBudget, stressBudget = 10*time.Minute, 14*time.Minute
 	}
@@ -132,6 +136,37 @@ func main() {
 		recordStress(res, cfg, so)
 	}
 	res.Extra["stress_wall_s"] = time.Since(t1).Seconds()
+
+	// ---- (P) targeted races around Close (both were real on the tree as found and are repaired by
+	// "fix: cache: finalise once, and only at zero references, on a closed cache"; they must not recur)
+	raceBudget := 2 * time.Second
+	if a.Thorough() {
+		raceBudget = 60 * time.Second
+	}
+	if res.NViolations() == 0 {
+		targetedRaces(res, raceBudget, a.Thorough())
+	}
+}
+
+func targetedRaces(res *vlib.Result, d time.Duration, deadlockToo bool) {
+	trials, hits := closeRaceExperiment(d)
+	res.Count("closerace_trials", trials)
+	if hits > 0 {
+		res.Violate(fmt.Sprintf("stress: Release + Get + Close(false): a value was finalised while a handle obtained from the open cache was outstanding (%d of %d trials)", hits, trials),
+			map[string]interface{}{"mode": "closerace"})
+	}
+	t2, h2 := forceCloseRaceExperiment(d)
+	res.Count("forcecloserace_trials", t2)
+	if h2 > 0 {
+		res.Violate(fmt.Sprintf("stress: Close(true) racing Handle.Release: a value was finalised twice (%d of %d trials)", h2, t2),
+			map[string]interface{}{"mode": "forcecloserace"})
+	}
+	if deadlockToo {
+		// known finding of C09 (known_findings_C17.txt: cache-close-rlock-reentry): counted, not a C17 violation
+		t3, h3 := closeDeadlockExperiment(20 * time.Second)
+		res.Count("known_C09_cache_close_rlock_reentry_trials", t3)
+		res.Count("known_C09_cache_close_rlock_reentry_deadlocks", h3)
+	}
 }
 
 func record(res *vlib.Result, mode string, sc *SeqCase, st *StressCfg, o seqOutcome) {
@@ -212,6 +247,8 @@ func replay(a vlib.Args, res *vlib.Result) {
 			cfg.Seed += uint64(i)
 			recordStress(res, cfg, runStressWatched(cfg))
 		}
+	case rf.Case.Mode == "closerace" || rf.Case.Mode == "forcecloserace":
+		targetedRaces(res, 30*time.Second, false)
 	default:
 		fmt.Fprintln(os.Stderr, "replay: file names no C17 case (a proof/correspondence tie file?)")
 	}
